@@ -26,6 +26,7 @@ fn run_line(prop: &str, args: &[&str]) -> String {
         "C18" => tr::run18(args),
         "C19" => tr19::run19(args),
         "C06" => conn::run(args),
+        "C08" if args[0] == "resp" => tr19::run19(args),
         "C08" | "C09" | "C10" | "C11" | "C20" | "C01" => hand::run(args),
         "C07" => wire::run(args),
         "C12" => sess::run12(args),
